@@ -15,7 +15,7 @@ import (
 	"grits/zverif/harness"
 )
 
-var raceFn = regexp.MustCompile(`(?m)^  (grits/[^\s(]+)\(`)
+var raceFn = regexp.MustCompile(`(?m)^  (grits/\S+?)\(\S*\)?\n`)
 
 func init() {
 	harness.Register(&harness.Check{
